@@ -127,4 +127,532 @@ theorem namedTail_head (named : List (Bytes × Inline Bytes)) (hv : validNamed n
     obtain ⟨h1, h2, h3, h4⟩ := (notBlank_iff b).mp (alpha_notBlank b hb)
     exact ⟨b, by simp [namedTail], h1, h2, h3, fun h => by simp at h, fun _ => h4⟩
 
+/-! ## named arguments -/
+
+theorem getInline_literal {s : Src} (hs : AsciiThenBoundary s) (v : Inline Bytes) (hl : isLiteral v = true)
+    (hv : validInline v = true) (p n : Nat) (ol : Bool) (h : At s p (inlineBytes v))
+    (hstop : StopAt s (p + (inlineBytes v).length) numStop) :
+    ∃ v', getInline s (n + 1) ol p = .ok v' (p + (inlineBytes v).length) ∧ v'.mapS (spanBytes s) = v := by
+  cases v with
+  | str b =>
+    simp only [validInline] at hv
+    simp only [inlineBytes] at h ⊢
+    refine ⟨.str ⟨p + 1, p + 1 + b.length⟩, ?_, ?_⟩
+    · rw [getInline_str hs b hv p n ol h]; simp; omega
+    · rw [at_cons, at_append] at h
+      simp [Inline.mapS, at_spanBytes h.2.1]
+  | num b =>
+    simp only [validInline] at hv
+    simp only [inlineBytes] at h hstop ⊢
+    exact ⟨_, getInline_num hs b hv p n ol h hstop, by simp [Inline.mapS, at_spanBytes h]⟩
+  | _ => simp [isLiteral] at hl
+
+/-- the bytes of a name in the accumulated named arguments -/
+def accNames (s : Src) (named0 : List (Span × Inline Span)) : List Bytes := named0.map fun na => spanBytes s na.1
+
+theorem mapNamed_append (f : Span → Bytes) (a b : List (Span × Inline Span)) :
+    mapNamed f (a ++ b) = mapNamed f a ++ mapNamed f b := by
+  induction a with
+  | nil => rfl
+  | cons x xs ih => obtain ⟨n, v⟩ := x; simp [mapNamed, ih]
+
+theorem mapInl_append (f : Span → Bytes) (a b : List (Inline Span)) :
+    mapInl f (a ++ b) = mapInl f a ++ mapInl f b := by
+  induction a with
+  | nil => rfl
+  | cons x xs ih => simp [mapInl, ih]
+
+theorem nextPos_close (s : Src) (q : Nat) (h : s[q]? = some 41) :
+    skipBlank s (takeByteIf s (skipBlank s q) 44).fst = q := by
+  have h1 := skipBlank_at_byte s q 41 h (by decide) (by decide) (by decide)
+  rw [h1, takeByteIf_no s q 44 (by rw [h]; decide)]
+  exact h1
+
+theorem nextPos_comma (s : Src) (q : Nat) (b : UInt8) (h0 : s[q]? = some 44) (h1 : s[q + 1]? = some 32)
+    (h2 : s[q + 2]? = some b) (hb : b ≠ 32 ∧ b ≠ 10 ∧ b ≠ 13) :
+    skipBlank s (takeByteIf s (skipBlank s q) 44).fst = q + 2 := by
+  rw [skipBlank_at_byte s q 44 h0 (by decide) (by decide) (by decide), takeByteIf_yes s q 44 h0]
+  simp only []
+  rw [skipBlank_space s (q + 1) h1]
+  exact skipBlank_at_byte s (q + 2) b h2 hb.1 hb.2.1 hb.2.2
+
+theorem getCallArgsLoop_named {s : Src} (hs : AsciiThenBoundary s) (named : List (Bytes × Inline Bytes))
+    (hv : validNamed named = true) (hnd : (named.map Prod.fst).Nodup) :
+    ∀ (p fuel : Nat) (pos0 : List (Inline Span)) (named0 : List (Span × Inline Span)),
+      At s p (namedTail named) → named.length + 3 ≤ fuel →
+      (∀ n ∈ named.map Prod.fst, n ∉ accNames s named0) →
+      ∃ named', getCallArgsLoop s fuel pos0 named0 p =
+          .ok (pos0, named0 ++ named') (p + (namedTail named).length - 1) ∧
+        mapNamed (spanBytes s) named' = named := by
+  induction named with
+  | nil =>
+    intro p fuel pos0 named0 h hf _
+    obtain ⟨k, rfl⟩ : ∃ k, fuel = k + 1 := ⟨fuel - 1, by omega⟩
+    simp only [namedTail, at_cons] at h
+    refine ⟨[], ?_, rfl⟩
+    rw [getCallArgsLoop]
+    simp only [get_lt h.1, if_true, isCurrentByte, h.1, beq_self_eq_true, namedTail, List.append_nil,
+      List.length_cons, List.length_nil]
+    rfl
+  | cons x xs ih =>
+    obtain ⟨n, v⟩ := x
+    intro p fuel pos0 named0 h hf hdis
+    obtain ⟨k, rfl⟩ : ∃ k, fuel = k + 3 := ⟨fuel - 3, by simp at hf; omega⟩
+    simp only [validNamed, Bool.and_eq_true] at hv
+    obtain ⟨⟨⟨hn, hl⟩, hvv⟩, hxs⟩ := hv
+    simp only [List.map_cons, List.nodup_cons] at hnd
+    rw [namedTail, at_append, at_append, at_append, at_append] at h
+    obtain ⟨⟨⟨⟨h1, h2⟩, h3⟩, h4⟩, h5⟩ := h
+    simp only [at_cons, List.length_append, List.length_cons, List.length_nil] at h2 h3 h4 h5
+    -- first byte: a letter
+    obtain ⟨b, rest, hnb, hb, _⟩ := validIdent_head hn
+    have hp0 : s[p]? = some b := by rw [hnb, at_cons] at h1; exact h1.1
+    have hb41 : b ≠ 41 := ((notBlank_iff b).mp (alpha_notBlank b hb)).2.2.2
+    -- the name
+    obtain ⟨hfol, hsb⟩ := follow_of_byte 58 h2.1 (by decide)
+    have e1 := getInline_msg_none hs n hn p k h1 hfol.ident hfol.2
+    rw [hsb] at e1
+    -- the value
+    obtain ⟨vb, hvb, hvnb⟩ := inlineBytes_head v hvv
+    have hv0 := at_head h3 hvb
+    obtain ⟨nb1, nb2, nb3, _⟩ := (notBlank_iff vb).mp hvnb
+    have hsb2 : skipBlank s (p + n.length + 1) = p + n.length + 2 := by
+      rw [skipBlank_space s _ h2.2.1]
+      exact skipBlank_at_byte s _ vb (by simpa [Nat.add_assoc] using hv0) nb1 nb2 nb3
+    have e3 : p + (n.length + (0 + 1 + 1)) = p + n.length + 2 := by omega
+    have e4 : p + (n.length + (0 + 1 + 1) + (inlineBytes v).length) = p + n.length + 2 + (inlineBytes v).length := by
+      omega
+    rw [e3] at h3 hv0
+    rw [e4] at h4
+    -- where the loop restarts
+    obtain ⟨q', hnext, hat', hstopv, hlen⟩ : ∃ q',
+        skipBlank s (takeByteIf s (skipBlank s (p + n.length + 2 + (inlineBytes v).length)) 44).fst = q' ∧
+        At s q' (namedTail xs) ∧ StopAt s (p + n.length + 2 + (inlineBytes v).length) numStop ∧
+        q' + (namedTail xs).length = p + (namedTail ((n, v) :: xs)).length := by
+      cases xs with
+      | nil =>
+        simp only [List.isEmpty_nil, if_true, List.length_nil, Nat.add_zero, namedTail, at_cons] at h5
+        rw [e4] at h5
+        refine ⟨_, nextPos_close s _ h5.1, by simp [namedTail, at_cons, h5.1],
+          (follow_of_byte 41 h5.1 (by decide)).1.num, ?_⟩
+        simp [namedTail]; omega
+      | cons y ys =>
+        simp only [List.isEmpty_cons, Bool.false_eq_true, if_false, at_cons, List.length_cons, List.length_nil] at h4 h5
+        obtain ⟨yb, hyb, y1, y2, y3, _⟩ := namedTail_head (y :: ys) hxs
+        have e5 : p + (n.length + (0 + 1 + 1) + (inlineBytes v).length + (0 + 1 + 1)) =
+            p + n.length + 2 + (inlineBytes v).length + 2 := by omega
+        rw [e5] at h5
+        refine ⟨_, nextPos_comma s _ yb h4.1 h4.2.1 (at_head h5 hyb) ⟨y1, y2, y3⟩, h5,
+          (follow_of_byte 44 h4.1 (by decide)).1.num, ?_⟩
+        have : namedTail ((n, v) :: y :: ys) = n ++ [58, 32] ++ inlineBytes v ++ [44, 32] ++ namedTail (y :: ys) := by
+          rw [namedTail]; rfl
+        rw [this]
+        simp; omega
+    obtain ⟨v', ev, rv⟩ := getInline_literal hs v hl hvv (p + n.length + 2) (k + 1) true h3 hstopv
+    have hdup : (named0.any fun na => spanBytes s na.fst == spanBytes s ⟨p, p + n.length⟩) = false := by
+      rw [at_spanBytes h1, List.any_eq_false]
+      intro na hna heq
+      apply hdis n (by simp)
+      simp only [accNames, List.mem_map]
+      exact ⟨na, hna, by simpa using heq⟩
+    obtain ⟨named', eih, rih⟩ := ih hxs hnd.2 q' (k + 2) pos0 (named0 ++ [(⟨p, p + n.length⟩, v')]) hat'
+      (by simp at hf; omega) (by
+        intro m hm
+        simp only [accNames, List.map_append, List.map_cons, List.map_nil, List.mem_append, List.mem_singleton,
+          at_spanBytes h1, not_or]
+        refine ⟨hdis m (by simp [hm]), ?_⟩
+        intro hmn; subst hmn
+        exact hnd.1 (by simpa using hm))
+    refine ⟨(⟨p, p + n.length⟩, v') :: named', ?_, ?_⟩
+    · rw [getCallArgsLoop]
+      have hc41 : isCurrentByte s p 41 = false := by simp [isCurrentByte, hp0, hb41]
+      have hc58 : isCurrentByte s (p + n.length) 58 = true := by simp [isCurrentByte, h2.1]
+      simp only [get_lt hp0, if_true, hc41, Bool.false_eq_true, if_false, e1, hsb, hc58, hdup, hsb2, ev, hnext, eih]
+      simp only [List.append_assoc, List.singleton_append]
+      congr 1
+      omega
+    · simp [mapNamed, rv, rih, at_spanBytes h1]
+
+/-! ## positional arguments and the inline expression itself -/
+
+theorem getCallArgsLoop_step_pos (s : Src) (k : Nat) (pos0 : List (Inline Span)) (p : Nat) (e' : Inline Span) (q : Nat)
+    (hp : p < s.size) (h41 : isCurrentByte s p 41 = false) (he : getInline s k false p = .ok e' q)
+    (hq : skipBlank s q = q) (h58 : isCurrentByte s q 58 = false) :
+    getCallArgsLoop s (k + 1) pos0 [] p =
+      getCallArgsLoop s k (pos0 ++ [e']) [] (skipBlank s (takeByteIf s q 44).fst) := by
+  rw [getCallArgsLoop]
+  simp only [hp, if_true, h41, Bool.false_eq_true, if_false, he]
+  cases e' with
+  | msg id attr => cases attr <;> simp [hq, h58]
+  | _ => simp [hq]
+
+theorem getCallArguments_open (s : Src) (m q : Nat) (b : UInt8) (r : List (Inline Span) × List (Span × Inline Span))
+    (qe : Nat) (h40 : s[q]? = some 40) (hb : s[q + 1]? = some b) (hnb : b ≠ 32 ∧ b ≠ 10 ∧ b ≠ 13)
+    (hloop : getCallArgsLoop s m [] [] (q + 1) = .ok r qe) (h41 : s[qe]? = some 41) :
+    getCallArguments s (m + 1) q = .ok (some r) (qe + 1) := by
+  rw [getCallArguments]
+  rw [skipBlank_at_byte s q 40 h40 (by decide) (by decide) (by decide), takeByteIf_yes s q 40 h40]
+  simp only [Bool.not_true, Bool.false_eq_true, if_false]
+  rw [skipBlank_at_byte s (q + 1) b hb hnb.1 hnb.2.1 hnb.2.2, hloop]
+  obtain ⟨r1, r2⟩ := r
+  simp [expectByte, isCurrentByte, h41]
+
+theorem posTail_head (xs : List (Inline Bytes)) (hv : validInl xs = true) (named : List (Bytes × Inline Bytes))
+    (hvn : validNamed named = true) :
+    ∃ b, (posTail xs named.isEmpty (namedTail named)).head? = some b ∧ b ≠ 32 ∧ b ≠ 10 ∧ b ≠ 13 := by
+  cases xs with
+  | nil =>
+    obtain ⟨b, h1, h2, h3, h4, _⟩ := namedTail_head named hvn
+    exact ⟨b, by simpa [posTail] using h1, h2, h3, h4⟩
+  | cons x xs =>
+    simp only [validInl, Bool.and_eq_true] at hv
+    obtain ⟨b, h1, h2⟩ := inlineBytes_head x hv.1
+    obtain ⟨n1, n2, n3, _⟩ := (notBlank_iff b).mp h2
+    refine ⟨b, ?_, n1, n2, n3⟩
+    rw [posTail]
+    cases hx : inlineBytes x with
+    | nil => simp [hx] at h1
+    | cons y ys => simp [hx] at h1 ⊢; exact h1
+
+theorem posTail_last (xs : List (Inline Bytes)) (named : List (Bytes × Inline Bytes)) :
+    ∃ pre, posTail xs named.isEmpty (namedTail named) = pre ++ [41] := by
+  have hn : ∀ named : List (Bytes × Inline Bytes), ∃ pre, namedTail named = pre ++ [41] := by
+    intro named
+    induction named with
+    | nil => exact ⟨[], rfl⟩
+    | cons x xs ih =>
+      obtain ⟨n, v⟩ := x
+      obtain ⟨pre, hpre⟩ := ih
+      exact ⟨_, by rw [namedTail, hpre, ← List.append_assoc]⟩
+  induction xs with
+  | nil => simpa [posTail] using hn named
+  | cons x xs ih =>
+    obtain ⟨pre, hpre⟩ := ih
+    exact ⟨_, by rw [posTail, hpre, ← List.append_assoc]⟩
+
+theorem endPos_stay (e : Inline Bytes) (s : Src) (q : Nat) (h : skipBlank s q = q) : endPos e s q = q := by
+  unfold endPos; split <;> simp [h]
+
+theorem getPlaceable_inline (s : Src) (k p1 : Nat) (e' : Inline Span) (pe : Nat) (hsb : skipBlank s p1 = p1)
+    (he : getInline s k false p1 = .ok e' pe) (h125 : s[pe]? = some 125)
+    (hnt : ∀ a b c, e' ≠ .term a (some b) c) :
+    getPlaceable s (k + 2) p1 = .ok (.inline e') (pe + 1) := by
+  have hsb2 : skipBlank s pe = pe := skipBlank_at_byte s pe 125 h125 (by decide) (by decide) (by decide)
+  have hsb3 : skipBlankInline s pe = pe := skipBlankInline_stay s pe (by rw [h125]; decide)
+  have h45 : isCurrentByte s pe 45 = false := by simp [isCurrentByte, h125]
+  have hex : getExpression s (k + 1) p1 = .ok (.inline e') pe := by
+    rw [getExpression, he]
+    simp only [hsb2, h45, Bool.not_false, Bool.true_or, if_true]
+  rw [getPlaceable, hsb, hex]
+  simp only [hsb3, expectByte, isCurrentByte, h125, beq_self_eq_true, if_true]
+  cases e' with
+  | term a b c => cases b with
+    | none => rfl
+    | some b => exact absurd rfl (hnt a b c)
+  | _ => rfl
+
+theorem notTermAttr_of_valid {i : Inline Bytes} (h : validInner (.inline i) = true) (e' : Inline Span)
+    (f : Span → Bytes) (hm : e'.mapS f = i) : ∀ a b c, e' ≠ .term a (some b) c := by
+  intro a b c he
+  subst he
+  cases c with
+  | none => simp only [Inline.mapS] at hm; subst hm; simp [validInner] at h
+  | some pn => obtain ⟨p, n⟩ := pn; simp only [Inline.mapS] at hm; subst hm; simp [validInner] at h
+
+theorem at_last_paren {s : Src} {q : Nat} {T : Bytes} (h : At s q T) (hl : ∃ pre, T = pre ++ [41]) :
+    s[q + T.length - 1]? = some 41 := by
+  obtain ⟨pre, rfl⟩ := hl
+  rw [at_append] at h
+  simp only [at_cons] at h
+  simpa using h.2.1
+
+mutual
+
+theorem getInline_bytes {s : Src} (hs : AsciiThenBoundary s) (e : Inline Bytes) (hv : validInline e = true)
+    (p fuel : Nat) (h : At s p (inlineBytes e)) (hf : Follow s (p + (inlineBytes e).length))
+    (hfuel : fuelInline e ≤ fuel) :
+    ∃ e', getInline s fuel false p = .ok e' (endPos e s (p + (inlineBytes e).length)) ∧
+      e'.mapS (spanBytes s) = e := by
+  cases e with
+  | str v =>
+    obtain ⟨n, rfl⟩ : ∃ n, fuel = n + 1 := ⟨fuel - 1, by simp [fuelInline] at hfuel; omega⟩
+    exact getInline_literal hs (.str v) rfl hv p n false h hf.num
+  | num v =>
+    obtain ⟨n, rfl⟩ : ∃ n, fuel = n + 1 := ⟨fuel - 1, by simp [fuelInline] at hfuel; omega⟩
+    exact getInline_literal hs (.num v) rfl hv p n false h hf.num
+  | var id =>
+    obtain ⟨n, rfl⟩ : ∃ n, fuel = n + 1 := ⟨fuel - 1, by simp [fuelInline] at hfuel; omega⟩
+    simp only [validInline] at hv
+    simp only [inlineBytes, List.length_cons] at h hf ⊢
+    have hf' : Follow s (p + 1 + id.length) := by rw [show p + 1 + id.length = p + (id.length + 1) by omega]; exact hf
+    refine ⟨.var ⟨p + 1, p + 1 + id.length⟩, ?_, ?_⟩
+    · rw [getInline_var hs id hv p n h hf'.ident]
+      simp [endPos]; omega
+    · rw [at_cons] at h
+      simp [Inline.mapS, at_spanBytes h.2]
+  | msg id attr =>
+    obtain ⟨n, rfl⟩ : ∃ n, fuel = n + 2 := ⟨fuel - 2, by simp [fuelInline] at hfuel; omega⟩
+    simp only [validInline, Bool.and_eq_true] at hv
+    cases attr with
+    | none =>
+      simp only [inlineBytes, attrBytes, List.append_nil] at h hf ⊢
+      exact ⟨_, getInline_msg_none hs id hv.1 p n h hf.ident hf.2, by simp [Inline.mapS, at_spanBytes h]⟩
+    | some a =>
+      simp only [optIdent] at hv
+      simp only [inlineBytes, attrBytes, List.length_append, List.length_cons] at h hf ⊢
+      have hf' : Follow s (p + id.length + 1 + a.length) := by
+        rw [show p + id.length + 1 + a.length = p + (id.length + (a.length + 1)) by omega]; exact hf
+      refine ⟨.msg ⟨p, p + id.length⟩ (some ⟨p + id.length + 1, p + id.length + 1 + a.length⟩), ?_, ?_⟩
+      · rw [getInline_msg_some hs id a hv.1 hv.2 p n h hf'.ident]
+        simp [endPos]; omega
+      · rw [at_append, at_cons] at h
+        simp [Inline.mapS, at_spanBytes h.1, at_spanBytes h.2.2]
+  | term id attr args =>
+    cases args with
+    | none =>
+      obtain ⟨n, rfl⟩ : ∃ n, fuel = n + 2 := ⟨fuel - 2, by simp [fuelInline] at hfuel; omega⟩
+      simp only [validInline, Bool.and_eq_true] at hv
+      simp only [inlineBytes] at h hf ⊢
+      have epos : p + (45 :: (id ++ attrBytes attr)).length = p + 1 + id.length + (attrBytes attr).length := by
+        simp; omega
+      rw [epos] at hf
+      simp only [endPos, epos]
+      have := getInline_term_noargs hs id attr hv.1 hv.2 p n h hf.ident hf.2
+      refine ⟨_, this, ?_⟩
+      rw [at_cons, at_append] at h
+      obtain ⟨_, h1, h2⟩ := h
+      cases attr with
+      | none => simp [Inline.mapS, at_spanBytes h1]
+      | some a =>
+        simp only [attrBytes, at_cons] at h2
+        simp [Inline.mapS, at_spanBytes h1, at_spanBytes h2.2]
+    | some pn =>
+      obtain ⟨pos, named⟩ := pn
+      simp only [validInline, Bool.and_eq_true] at hv
+      obtain ⟨⟨⟨⟨hid, hattr⟩, hpos⟩, hnamed⟩, hnd⟩ := hv
+      have hnd' : (named.map Prod.fst).Nodup := by simpa [namesNodup] using hnd
+      obtain ⟨m, rfl⟩ : ∃ m, fuel = m + 2 := ⟨fuel - 2, by simp [fuelInline] at hfuel; omega⟩
+      have hm : fuelArgs pos + named.length + 3 ≤ m := by simp [fuelInline] at hfuel; omega
+      simp only [inlineBytes] at h hf ⊢
+      rw [at_cons, at_append, at_append, at_cons] at h
+      obtain ⟨h0, ⟨h1, h2⟩, h40, hT⟩ := h
+      simp only [List.length_append] at h40 hT
+      rw [← Nat.add_assoc] at h40 hT
+      obtain ⟨xs', named', hloop, hmx, hmn⟩ :=
+        getCallArgsLoop_pos hs pos hpos named hnamed hnd' _ m [] hT hm
+      have h41 := at_last_paren hT (posTail_last pos named)
+      have hTlen : 1 ≤ (posTail pos named.isEmpty (namedTail named)).length := by
+        obtain ⟨pre, hpre⟩ := posTail_last pos named; rw [hpre]; simp
+      obtain ⟨b, hb, hnb⟩ := posTail_head pos hpos named hnamed
+      have hca := getCallArguments_open s m _ b _ _ h40 (at_head hT hb) hnb hloop h41
+      obtain ⟨c, rest, hidc, hc, _⟩ := validIdent_head hid
+      have hc0 : s[p + 1]? = some c := by rw [hidc, at_cons] at h1; exact h1.1
+      have his : isIdentifierStart s (p + 1) = true := by simp [isIdentifierStart, hc0, hc]
+      cases attr with
+      | none =>
+        simp only [attrBytes, List.length_nil, Nat.add_zero] at h40 hca
+        have hstop : StopAt s (p + 1 + id.length) isIdentByte := fun c hc => by rw [h40] at hc; cases hc; decide
+        have hid' := getIdentifierUnchecked_at hs (p + 1) id hid h1 hstop
+        simp only [show p + 1 + 1 = p + 2 by omega] at hid'
+        refine ⟨.term ⟨p + 1, p + 1 + id.length⟩ none (some (xs', named')), ?_,
+          by simp [Inline.mapS, at_spanBytes h1, hmx, hmn]⟩
+        rw [getInline, h0]
+        simp only [his, hid', getAttributeAccessor_none s _ (by rw [h40]; decide), hca]
+        simp [isDigit, endPos, attrBytes]
+        omega
+      | some a =>
+        simp only [optIdent] at hattr
+        simp only [attrBytes, at_cons, List.length_cons] at h2 h40 hca
+        have hstop : StopAt s (p + 1 + id.length) isIdentByte := fun c hc => by rw [h2.1] at hc; cases hc; decide
+        have hid' := getIdentifierUnchecked_at hs (p + 1) id hid h1 hstop
+        simp only [show p + 1 + 1 = p + 2 by omega] at hid'
+        have e3 : p + 1 + id.length + (a.length + 1) = p + 1 + id.length + 1 + a.length := by omega
+        rw [e3] at h40 hca
+        have hstop2 : StopAt s (p + 1 + id.length + 1 + a.length) isIdentByte := fun c hc => by
+          rw [h40] at hc; cases hc; decide
+        refine ⟨.term ⟨p + 1, p + 1 + id.length⟩ (some ⟨p + 1 + id.length + 1, p + 1 + id.length + 1 + a.length⟩)
+          (some (xs', named')), ?_, by simp [Inline.mapS, at_spanBytes h1, at_spanBytes h2.2, hmx, hmn]⟩
+        rw [getInline, h0]
+        simp only [his, hid', getAttributeAccessor_some hs _ a hattr (by rw [at_cons]; exact h2) hstop2, hca]
+        simp [isDigit, endPos, attrBytes]
+        omega
+  | fn id pos named =>
+    simp only [validInline, Bool.and_eq_true] at hv
+    obtain ⟨⟨⟨⟨hid, hcallee⟩, hpos⟩, hnamed⟩, hnd⟩ := hv
+    have hnd' : (named.map Prod.fst).Nodup := by simpa [namesNodup] using hnd
+    obtain ⟨m, rfl⟩ : ∃ m, fuel = m + 2 := ⟨fuel - 2, by simp [fuelInline] at hfuel; omega⟩
+    have hm : fuelArgs pos + named.length + 3 ≤ m := by simp [fuelInline] at hfuel; omega
+    simp only [inlineBytes] at h hf ⊢
+    rw [at_append, at_cons] at h
+    obtain ⟨h1, h40, hT⟩ := h
+    obtain ⟨xs', named', hloop, hmx, hmn⟩ :=
+      getCallArgsLoop_pos hs pos hpos named hnamed hnd' (p + id.length + 1) m [] hT hm
+    have h41 := at_last_paren hT (posTail_last pos named)
+    have hTlen : 1 ≤ (posTail pos named.isEmpty (namedTail named)).length := by
+      obtain ⟨pre, hpre⟩ := posTail_last pos named; rw [hpre]; simp
+    obtain ⟨b, hb, hnb⟩ := posTail_head pos hpos named hnamed
+    have hca := getCallArguments_open s m (p + id.length) b _ _ h40 (at_head hT hb) hnb hloop h41
+    obtain ⟨c, rest, hidc, hc, _⟩ := validIdent_head hid
+    have h0 : s[p]? = some c := by rw [hidc, at_cons] at h1; exact h1.1
+    obtain ⟨f1, f2, f3, f4⟩ := alpha_facts c hc
+    have hstop : StopAt s (p + id.length) isIdentByte := fun c hc => by rw [h40] at hc; cases hc; decide
+    have hcal : isCallee s ⟨p, p + id.length⟩ = true := by
+      simp only [isCallee, at_spanBytes h1]; exact hcallee
+    refine ⟨.fn ⟨p, p + id.length⟩ xs' named', ?_, by simp [Inline.mapS, at_spanBytes h1, hmx, hmn]⟩
+    rw [getInline, h0]
+    simp only [beq_iff_eq, f1, f2, f3, if_false, hc, if_true, Bool.false_eq_true,
+      getIdentifierUnchecked_at hs p id hid h1 hstop, hca, hcal]
+    simp [f4, endPos]
+    omega
+  | placeable e =>
+    cases e with
+    | select sel vs => simp [validInline, validInner] at hv
+    | inline i =>
+      have hvi : validInner (.inline i) = true := by simpa [validInline] using hv
+      have hi := validInner_inline hvi
+      obtain ⟨k, rfl⟩ : ∃ k, fuel = k + 3 := ⟨fuel - 3, by simp [fuelInline, fuelInner] at hfuel; omega⟩
+      have hk : fuelInline i ≤ k := by simp [fuelInline, fuelInner] at hfuel; omega
+      simp only [inlineBytes, innerBytes] at h hf ⊢
+      rw [at_cons, at_append] at h
+      obtain ⟨h0, h1, h2⟩ := h
+      simp only [at_cons] at h2
+      obtain ⟨hfol, hsb⟩ := follow_of_byte 125 h2.1 (by decide)
+      obtain ⟨e', he, hm⟩ := getInline_bytes hs i hi (p + 1) k h1 hfol hk
+      rw [endPos_stay i s _ hsb] at he
+      obtain ⟨b, hb, hnb⟩ := inlineBytes_head i hi
+      have hb0 := at_head h1 hb
+      obtain ⟨n1, n2, n3, _⟩ := (notBlank_iff b).mp hnb
+      have hsb1 := skipBlank_at_byte s (p + 1) b hb0 n1 n2 n3
+      have hpl := getPlaceable_inline s k (p + 1) e' _ hsb1 he h2.1 (notTermAttr_of_valid hvi e' _ hm)
+      refine ⟨.placeable (.inline e'), ?_, by simp [Inline.mapS, Expr.mapS, hm]⟩
+      rw [getInline, h0]
+      simp only [hpl]
+      simp [isDigit, isAlpha, endPos]
+      omega
+
+theorem getCallArgsLoop_pos {s : Src} (hs : AsciiThenBoundary s) (xs : List (Inline Bytes)) (hv : validInl xs = true)
+    (named : List (Bytes × Inline Bytes)) (hvn : validNamed named = true) (hnd : (named.map Prod.fst).Nodup)
+    (p fuel : Nat) (pos0 : List (Inline Span)) (h : At s p (posTail xs named.isEmpty (namedTail named)))
+    (hfuel : fuelArgs xs + named.length + 3 ≤ fuel) :
+    ∃ xs' named', getCallArgsLoop s fuel pos0 [] p =
+        .ok (pos0 ++ xs', named') (p + (posTail xs named.isEmpty (namedTail named)).length - 1) ∧
+      mapInl (spanBytes s) xs' = xs ∧ mapNamed (spanBytes s) named' = named := by
+  cases xs with
+  | nil =>
+    simp only [posTail] at h ⊢
+    obtain ⟨named', hl, hm⟩ := getCallArgsLoop_named hs named hvn hnd p fuel pos0 [] h
+      (by simp [fuelArgs] at hfuel; omega) (by simp [accNames])
+    exact ⟨[], named', by simpa using hl, rfl, hm⟩
+  | cons x xs =>
+    simp only [validInl, Bool.and_eq_true] at hv
+    obtain ⟨k, rfl⟩ : ∃ k, fuel = k + 1 := ⟨fuel - 1, by omega⟩
+    have hk1 : fuelInline x ≤ k := by simp [fuelArgs] at hfuel; omega
+    have hk2 : fuelArgs xs + named.length + 3 ≤ k := by simp [fuelArgs] at hfuel; omega
+    have hpt : posTail (x :: xs) named.isEmpty (namedTail named) =
+        inlineBytes x ++ (if xs.isEmpty && named.isEmpty then [] else [44, 32]) ++
+          posTail xs named.isEmpty (namedTail named) := by rw [posTail]
+    rw [hpt, at_append, at_append] at h
+    obtain ⟨⟨h1, h2⟩, h3⟩ := h
+    -- what follows `x`
+    obtain ⟨q', hnext, hat', hfol, hsb, h58, hlen⟩ : ∃ q',
+        skipBlank s (takeByteIf s (p + (inlineBytes x).length) 44).fst = q' ∧
+        At s q' (posTail xs named.isEmpty (namedTail named)) ∧ Follow s (p + (inlineBytes x).length) ∧
+        skipBlank s (p + (inlineBytes x).length) = p + (inlineBytes x).length ∧
+        isCurrentByte s (p + (inlineBytes x).length) 58 = false ∧
+        q' + (posTail xs named.isEmpty (namedTail named)).length =
+          p + (posTail (x :: xs) named.isEmpty (namedTail named)).length := by
+      by_cases hlast : (xs.isEmpty && named.isEmpty) = true
+      · simp only [Bool.and_eq_true, List.isEmpty_iff] at hlast
+        obtain ⟨rfl, rfl⟩ := hlast
+        simp only [List.isEmpty_nil, Bool.and_self, if_true, posTail, namedTail, at_cons, List.append_nil] at h3 ⊢
+        obtain ⟨hf1, hf2⟩ := follow_of_byte 41 h3.1 (by decide)
+        have := nextPos_close s _ h3.1
+        rw [hf2] at this
+        exact ⟨_, this, by simp [h3.1], hf1, hf2, by simp [isCurrentByte, h3.1], by simp; omega⟩
+      · simp only [hlast, Bool.false_eq_true, if_false, at_cons] at h2 h3
+        rw [hpt]
+        simp only [hlast, Bool.false_eq_true, if_false]
+        obtain ⟨hf1, hf2⟩ := follow_of_byte 44 h2.1 (by decide)
+        obtain ⟨b, hb, hnb⟩ := posTail_head xs hv.2 named hvn
+        have e5 : p + (inlineBytes x ++ [44, 32]).length = p + (inlineBytes x).length + 2 := by simp; omega
+        rw [e5] at h3
+        have := nextPos_comma s _ b h2.1 h2.2.1 (at_head h3 hb) hnb
+        rw [hf2] at this
+        exact ⟨_, this, h3, hf1, hf2, by simp [isCurrentByte, h2.1], by simp; omega⟩
+    obtain ⟨e', he, hme⟩ := getInline_bytes hs x hv.1 p k h1 hfol hk1
+    rw [endPos_stay x s _ hsb] at he
+    obtain ⟨xs', named', hloop, hmx, hmn⟩ :=
+      getCallArgsLoop_pos hs xs hv.2 named hvn hnd q' k (pos0 ++ [e']) hat' hk2
+    obtain ⟨b, hb, hnb⟩ := inlineBytes_head x hv.1
+    have hb0 := at_head h1 hb
+    have h41 : isCurrentByte s p 41 = false := by
+      have := ((notBlank_iff b).mp hnb).2.2.2
+      simp [isCurrentByte, hb0, this]
+    refine ⟨e' :: xs', named', ?_, by simp [mapInl, hme, hmx], hmn⟩
+    rw [getCallArgsLoop_step_pos s k pos0 p e' _ (get_lt hb0) h41 he hsb h58, hnext, hloop]
+    simp only [List.append_assoc, List.singleton_append]
+    congr 1
+    omega
+
+end
+
+/-! ## packaging -/
+
+theorem at_toArray (pre bs rest : Bytes) : At (pre ++ bs ++ rest).toArray pre.length bs := by
+  induction bs generalizing pre with
+  | nil => simp
+  | cons x xs ih =>
+    rw [at_cons]
+    constructor
+    · simp
+    · have := ih (pre ++ [x])
+      simpa using this
+
+theorem get_toArray_rest (pre bs rest : Bytes) (i : Nat) :
+    (pre ++ bs ++ rest).toArray[pre.length + bs.length + i]? = rest[i]? := by
+  simp only [List.getElem?_toArray, List.append_assoc]
+  rw [List.getElem?_append_right (by omega), List.getElem?_append_right (by omega)]
+  congr 1; omega
+
+/-- from the empty writer the serializer produces exactly `inlineBytes e` -/
+theorem serInline_empty (e : Inline Bytes) (hv : validInline e = true) :
+    (serInline {} e).map (fun w => w.buffer.toList) = some (inlineBytes e) := by
+  rw [(serInline_eq_bytes e hv {}).1]
+  simp [Writer.writeLiteral, endsWith, Writer.pushAll]
+
+/-- **T2 `inline_roundtrip`.**  Let `e` be a valid inline expression (`validInline`, decidable) and
+`w` any writer.  The serializer writes one literal `out` (`= inlineBytes e`), and on every source
+`s` (with the `&str` invariant) that contains `out` at `p` and continues with something that cannot
+extend the expression (`Follow`), `get_inline_expression` returns a tree `e'` that resolves to `e`
+(all seven expression forms, call arguments with positional and named arguments, nested
+placeables) and stops at `endPos e s (p + out.length)`: exactly behind `out`, except that a
+message/term reference without arguments also swallows the blanks that follow
+(`get_call_arguments` calls `skip_blank` before looking for `(`). -/
+theorem inline_roundtrip (e : Inline Bytes) (hv : validInline e = true) (w : Writer) :
+    ∃ out, serInline w e = some (w.writeLiteral out) ∧
+      ∀ (s : Src) (p fuel : Nat), AsciiThenBoundary s → At s p out → Follow s (p + out.length) →
+        fuelInline e ≤ fuel →
+        ∃ e', getInline s fuel false p = .ok e' (endPos e s (p + out.length)) ∧ e'.mapS (spanBytes s) = e :=
+  ⟨inlineBytes e, (serInline_eq_bytes e hv w).1, fun _ p fuel hs h hf hfu => getInline_bytes hs e hv p fuel h hf hfu⟩
+
+/-- **T2, concrete form.**  Serialise `e` from the empty writer to `out`, embed it as
+`pre ++ out ++ rest` where `rest` starts with `,`, `)`, `}` or `:`; then the parser started at
+`pre.length` returns `e` and stops exactly at `rest`. -/
+theorem inline_roundtrip_source (e : Inline Bytes) (hv : validInline e = true) (pre rest : Bytes) (c : UInt8)
+    (hc : c = 44 ∨ c = 41 ∨ c = 125 ∨ c = 58) (hrest : rest.head? = some c) (fuel : Nat) (hfuel : fuelInline e ≤ fuel) :
+    ∃ out, (serInline {} e).map (fun w => w.buffer.toList) = some out ∧
+      (AsciiThenBoundary (pre ++ out ++ rest).toArray →
+        ∃ e', getInline (pre ++ out ++ rest).toArray fuel false pre.length = .ok e' (pre.length + out.length) ∧
+          e'.mapS (spanBytes (pre ++ out ++ rest).toArray) = e) := by
+  refine ⟨inlineBytes e, serInline_empty e hv, fun hs => ?_⟩
+  have hq : (pre ++ inlineBytes e ++ rest).toArray[pre.length + (inlineBytes e).length]? = some c := by
+    have := get_toArray_rest pre (inlineBytes e) rest 0
+    rw [Nat.add_zero] at this
+    rw [this]
+    cases rest <;> simp_all
+  obtain ⟨hf, hsb⟩ := follow_of_byte c hq hc
+  obtain ⟨e', he, hm⟩ := getInline_bytes hs e hv pre.length fuel (at_toArray pre _ rest) hf hfuel
+  rw [endPos_stay e _ _ hsb] at he
+  exact ⟨e', he, hm⟩
+
 end FluentProofs.Ser
